@@ -166,15 +166,77 @@ def _worker_init():
     os.environ.setdefault('OMP_NUM_THREADS', '1')
 
 
+def library_origin(exc):
+    """If the exception propagated OUT OF a library call made by the harness (the innermost library frame lies
+    deeper than the innermost harness frame), return 'module.function' of that library frame, else None.
+    An exception raised by harness code (also by a user function the harness handed to the library) is a
+    defect of the machinery and stays a harness error."""
+    lib = os.path.join(os.path.realpath(REPO_SRC), 'numdifftools') + os.sep
+    mine = os.path.realpath(VERIF) + os.sep
+    last_lib, last_mine, where = -1, -1, None
+    for i, fs in enumerate(traceback.extract_tb(exc.__traceback__)):
+        fn = os.path.realpath(fs.filename)
+        if fn.startswith(lib):
+            last_lib, where = i, '%s.%s' % (os.path.splitext(os.path.basename(fn))[0], fs.name)
+        elif fn.startswith(mine):
+            last_mine = i
+    return where if last_lib > last_mine else None
+
+
+def _library_exception_acc(prop, fn, chunk, kw):
+    """A driver let an exception of the library escape: isolate the failing items of the chunk and report each
+    as a violation (the properties are about results being returned for inputs of their domain; an exception
+    that the unchanged tree never raises there is a failure to return one)."""
+    acc = Acc()
+    for item in chunk:
+        try:
+            acc.merge(fn([item], **kw))
+        except Exception as e:      # noqa: BLE001
+            where = library_origin(e)
+            if where is None:
+                raise
+            acc.case(('library-exception', repr(item)), nontrivial=True, n_eval=1, outcome=('exception', type(e).__name__))
+            acc.violation('%s:library-exception:%s:%s' % (prop, type(e).__name__, where),
+                          dict(work_item=jsonable(item), work_fn='%s.%s' % (fn.__module__, fn.__name__), work_kw=jsonable(kw),
+                               exception=type(e).__name__, raised_in=where),
+                          'the library raised %s: %s (in %s) for an input of the property\'s domain'
+                          % (type(e).__name__, str(e)[:200], where), 0)
+    return acc
+
+
+def replay_work_item(case):
+    """generic replay of a 'library-exception' artefact: run the recorded work item alone"""
+    import importlib
+
+    def tup(o):
+        return tuple(tup(v) for v in o) if isinstance(o, list) else o
+    modname, fname = case['work_fn'].rsplit('.', 1)
+    fn = getattr(importlib.import_module(modname), fname)
+    try:
+        fn([tup(case['work_item'])], **{k: tup(v) if k != 'targets' else v for k, v in (case.get('work_kw') or {}).items()})
+    except Exception as e:      # noqa: BLE001
+        where = library_origin(e)
+        if where is None:
+            raise
+        return False, 'the library raised %s: %s (in %s)' % (type(e).__name__, e, where)
+    return True, 'the work item ran without an exception of the library'
+
+
 def _run_chunk(args):
-    modname, fname, chunk, kw = args
+    modname, fname, chunk, kw = args[:4]
+    prop = args[4] if len(args) > 4 else 'C??'
     try:
         mod = sys.modules.get(modname)
         if mod is None:
             import importlib
             mod = importlib.import_module(modname)
         fn = getattr(mod, fname)
-        return fn(chunk, **kw)
+        try:
+            return fn(chunk, **kw)
+        except Exception as e:      # noqa: BLE001
+            if library_origin(e) is None:
+                raise
+            return _library_exception_acc(prop, fn, chunk, kw)
     except BaseException:
         return ('__harness_error__', traceback.format_exc())
 
@@ -211,7 +273,7 @@ class Ctx(object):
         items = items[s:] + items[:s]
         chunks = [items[i:i + chunk] for i in range(0, len(items), chunk)]
         modname, fname = fn.__module__, fn.__name__
-        tasks = [(modname, fname, c, kw) for c in chunks]
+        tasks = [(modname, fname, c, kw, self.prop) for c in chunks]
         if jobs == 1:
             _worker_init()
             results = map(_run_chunk, tasks)
@@ -265,8 +327,6 @@ def finish(ctx, acc, level, rule, exhaustive, assumptions, required_cells=(), co
     fixed_keys = {e['key']: e for e in known if e.get('status') == 'fixed'}
 
     missing = [c for c in required_cells if acc.cells.get(c, 0) == 0]
-    if missing:
-        raise HarnessError('vacuous coverage cells (no non-trivial case): %r' % (missing[:20],))
 
     new_viol, absorbed = [], {}
     record = os.environ.get('VERIF_RECORD_KNOWN')
@@ -285,6 +345,10 @@ def finish(ctx, acc, level, rule, exhaustive, assumptions, required_cells=(), co
                     new_viol.append((key + ':case-not-in-recorded-finding', len(extra), unl))
         else:
             new_viol.append((key, n, recs))
+    if missing and not new_viol:
+        # a silent verdict needs every required cell; with new violations the verdict is 'violated' anyway
+        # (a library that raises everywhere leaves cells empty: that must not turn a violation into exit 2)
+        raise HarnessError('vacuous coverage cells (no non-trivial case): %r' % (missing[:20],))
     if record:
         with open(record, 'a') as fh:
             fh.write(json.dumps({'property': prop, 'tier': ctx.tier, 'cases': recorded_now}) + '\n')
@@ -322,6 +386,7 @@ def finish(ctx, acc, level, rule, exhaustive, assumptions, required_cells=(), co
         'measures': {k: jsonable(v) for k, v in sorted(acc.extra.items())},
         'known_findings_absorbed': absorbed,
         'violation_keys': {k: n for k, n, _ in new_viol},
+        'required_cells_left_empty': [str(c) for c in missing[:50]],
     }
     if coverage_extra:
         cov.update(jsonable(coverage_extra))
